@@ -6,6 +6,8 @@ import walkers
 from guards import timed
 import id3file_tie
 import dsf_tie
+import asf_tie
+import ogginject_tie
 import iff_tie
 
 RULE_EXTRA = (" Plus: FLAC files with a leading ID3v2 tag saved with deleteid3=True (the space of the removed tag counts as available); "
@@ -153,6 +155,8 @@ def run(ctx):
     ogg_foreign_paging(ctx)
     id3file_tie.run(ctx)
     dsf_tie.run(ctx)
+    asf_tie.run(ctx)
+    ogginject_tie.run(ctx)
     iff_tie.run(ctx)
 
 
